@@ -120,6 +120,54 @@ def chain_program_part(ctx):
     return engine.run_model_programs(ctx, "C14", ["Samples", "GateRun", "InterruptRun", "InterruptRunModel"], items)
 
 
+def cached_interrupt_part(ctx):
+    """Interrupts declared cache=True (documented: "a previously auto-resolved response is replayed without re-running the
+    handler") on a runner with a cache, driven through histories of runs that pause, are answered - with DIFFERENT responses for
+    equal inputs - or are answered by the handler: every run must end exactly as the same run on a runner without a cache
+    (a supplied response passes the interrupt as that response; an unanswered pausing interrupt pauses)."""
+    import asyncio
+    from hypergraph import AsyncRunner, Graph
+    from hypergraph.cache import InMemoryCache
+    from hypergraph.nodes import FunctionNode, InterruptNode
+    rng = ctx.rng
+    n = 0
+    for _ in range(ctx.n(40, 300)):
+        auto = rng.choice([None, None, "auto"])
+        cached = rng.random() < 0.8
+
+        def handler(a, auto=auto):
+            return auto
+
+        def fa(x):
+            return x + 1
+
+        def fb(a, d):
+            return (a, d)
+        G = Graph([FunctionNode(fa, name="A", output_name="a", cache=rng.random() < 0.5), InterruptNode(handler, name="I", output_name="d", cache=cached),
+                   FunctionNode(fb, name="B", output_name="b")])
+        runner = AsyncRunner(cache=InMemoryCache())
+        hist = []
+        for step in range(rng.randint(2, 5)):
+            inputs = {"x": rng.choice([1, 1, 2])}
+            if rng.random() < 0.65:
+                inputs["d"] = rng.choice(["yes", "no", 0, ""])
+            hist.append(inputs)
+            case = {"family": "cached_interrupt", "interrupt_cache": cached, "handler_returns": auto, "history": list(hist)}
+            try:
+                got = asyncio.run(runner.run(G, dict(inputs)))
+                ref = asyncio.run(AsyncRunner().run(G, dict(inputs)))
+            except Exception as e:  # noqa: BLE001
+                ctx.violation("oracle", f"run with a cacheable interrupt raised {type(e).__name__}: {e}", case=case)
+                break
+            n += 1
+            o1 = (got.status.value, dict(got.values), got.pause.node_name if got.pause else None)
+            o2 = (ref.status.value, dict(ref.values), ref.pause.node_name if ref.pause else None)
+            if o1 != o2:
+                ctx.violation("oracle", f"run {len(hist)} of the history on a runner with a cache ended {o1}; without a cache it ends {o2}", case=case)
+                break
+    return n
+
+
 def run(ctx):
     rng = ctx.rng
     cases, meta = [], []
@@ -231,6 +279,7 @@ def run(ctx):
         return msgs
 
     n_model_programs = chain_program_part(ctx)
+    n_model_programs += cached_interrupt_part(ctx)
     obs_all, res = engine.run_cases(ctx, "C14", cases, extra=extra)
     # history-level oracle: one interrupt at a time, in dependency order; final result == handlers answering themselves
     for h in hist_groups:
@@ -256,6 +305,7 @@ def run(ctx):
         evaluations=len(cases) + n_model_programs, coq_checks=res["n"], distinct_nontrivial=len(nontrivial),
         rule="random DAGs with 1-3 single-output nodes turned into interrupts (handler pauses; 20% answer themselves), 25% with the "
              "interrupt inside a nested graph; each driven through its complete pause/resume history on AsyncRunner under adversarial "
-             "completion orders; non-trivial = a run that paused",
+             "completion orders; plus (oracle only) chains with a cache=True interrupt on a caching runner, histories of 2-5 runs answered with "
+             "different responses for equal inputs, each compared with the uncached run; non-trivial = a run that paused",
         distribution=dist, samples=[{"graph": cases[0][0]["nodes"], "run": cases[0][1]}] if cases else [],
         traces_validated_against_impl=len(obs_all), disagreements_checked=res["n"])
